@@ -40,8 +40,11 @@ let show_event (e: event) : string option = match e with
       Some (Printf.sprintf "dispatch:%d:%s:%s" (int_of_nat k) (text_of_bytes meth) (hex_or_dash req))
   | ESendResponse (i, RReply m) -> Some (Printf.sprintf "reply:%s:p=%s" (string_of_z i) (hex_or_dash m))
   | ESendResponse (i, RError e) -> Some (Printf.sprintf "reply:%s:e=%s" (string_of_z i) (err_name e))
+  | EDrop c -> Some ("drop:" ^ tag_label c)
+  | EUseAfterFree k -> Some (Printf.sprintf "uaf:%d" (int_of_nat k))
 let join l = if l = [] then "-" else String.concat "," l
-let show_state (s: state) : string =
+let show_state (ch: chan) : string =
+  let s = ch.core in
   let o = List.map (fun (i, c) -> Printf.sprintf "%s:r%dd%d" (string_of_z i) (if c.c_resp then 1 else 0) (if c.c_done then 1 else 0)) s.outs in
   let p = List.sort compare (List.map (fun (k, _) -> int_of_nat k) s.pending) in
   Printf.sprintf "next=%s outs=%s pend=%s" (string_of_z s.next_id) (join o) (join (List.map string_of_int p))
@@ -54,21 +57,21 @@ let mk_call c r d meth req : call =
    otherwise C19_Model.step, which rejects a call made with response == NULL *)
 let lax = ref false
 (* run labels; after a request dispatched to Echo the service answers at once (user code of the test) *)
-let rec run_labels (s: state) (ls: label list) : (state * event list) option =
+let rec run_labels (s: chan) (ls: clabel list) : (chan * event list) option =
   match ls with
   | [] -> Some (s, [])
   | l :: r ->
-    (match (if !lax then step_code s l else step s l) with
+    (match (if !lax then cstep_code s l else cstep s l) with
      | None -> None
      | Some (s', ev) ->
         let extra = List.concat (List.map (function
-          | EDispatch (k, _, _, meth, q) when text_of_bytes meth = "Echo" -> [LDone (k, q)]
+          | EDispatch (k, _, _, meth, q) when text_of_bytes meth = "Echo" -> [CL (LDone (k, q))]
           | _ -> []) ev) in
         (match run_labels s' (extra @ r) with
          | None -> None
          | Some (s'', ev') -> Some (s'', ev @ ev')))
 let () =
-  let st = ref (init None) in
+  let st = ref (cinit false None) in
   let leaked = ref [] in
   (try while true do
     let line = input_line stdin in
@@ -76,31 +79,34 @@ let () =
     | [] -> ()
     | "case" :: id :: rest ->
         let svc = List.mem "svc=1" rest in
+        let svc2 = List.mem "svc=2" rest in
         lax := List.mem "obs=1" rest;
-        st := init (if svc then svc_table else None);
+        (* svc=1: made and owned by RpcServer::onConnection; svc=2: user-owned channel with the service table *)
+        st := cinit svc (if svc || svc2 then svc_table else None);
         leaked := [];
-        Printf.printf "case %s services=%s\n" id (if svc then svc_name ^ ":Echo+Defer" else "NULL"); flush stdout
+        Printf.printf "case %s services=%s\n" id (if svc || svc2 then svc_name ^ ":Echo+Defer" else "NULL"); flush stdout
     | ["end"] ->
         (* parked helper threads are released and finish their calls; then ~RpcChannel deletes what is registered *)
         let fin = List.concat (List.map (fun (t, ts) -> match ts with
-            | TIdle -> [] | TFetched _ -> [LRegister t; LSend t] | TRegistered _ -> [LSend t]) !st.threads) in
+            | TIdle -> [] | TFetched _ -> [CL (LRegister t); CL (LSend t)] | TRegistered _ -> [CL (LSend t)]) !st.core.threads) in
         let s = (match run_labels !st fin with Some (s, _) -> s | None -> !st) in
-        let dtor = List.sort compare (List.concat (List.map (fun (_, c) -> if c.c_done then [tag_label c.c_tag] else []) s.outs)) in
+        let dtor = List.sort compare (List.concat (List.map (fun (_, c) -> if c.c_done then [tag_label c.c_tag] else []) s.core.outs)) in
         Printf.printf "final dtor=%s leaked=%s respleak=-\nend\n" (join dtor) (join (List.sort compare !leaked)); flush stdout
     | w ->
         let s = !st in
-        let labels : label list option = (match w with
+        let next_id = s.core.next_id in
+        let labels0 : label list option = (match w with
           | ["CALL"; c; r; d; meth; req] -> Some (call_labels O (mk_call (int_of_string c) r d meth (bytes_of_spec req)))
           | "CALLA" :: c :: r :: d :: meth :: req :: body ->
               let b = body_of body in
               if b.rb_resp = None && b.rb_err = None then None
-              else Some (call_labels O (mk_call (int_of_string c) r d meth (bytes_of_spec req)) @ [LResponse (Z.add s.next_id (z_of_int 1), b)])
+              else Some (call_labels O (mk_call (int_of_string c) r d meth (bytes_of_spec req)) @ [LResponse (Z.add next_id (z_of_int 1), b)])
           | ["F"; t; c; r; d; meth; req] -> Some [LFetch (nat_of_int (int_of_string t), mk_call (int_of_string c) r d meth (bytes_of_spec req))]
           | ["R"; t] -> Some [LRegister (nat_of_int (int_of_string t))]
           | ["S"; t] -> Some [LSend (nat_of_int (int_of_string t))]
           | "BURST" :: n :: k :: _ ->
               let total = int_of_string n * int_of_string k in
-              let base = int_of_z s.next_id in
+              let base = int_of_z next_id in
               Some (List.concat (List.init total (fun j ->
                 call_labels O (mk_call (burst_base + base + j + 1) "1" "1" "Echo" (bytes_of_text (string_of_int j))))))
           | "RESP" :: id :: body -> Some [LResponse (z_of_string id, body_of body)]
@@ -109,7 +115,11 @@ let () =
                                rq_req = (match payload_of_spec p with Some x -> x | None -> Valid []) }]
           | ["DONE"; k; d] -> Some [LDone (nat_of_int (int_of_string k), bytes_of_spec d)]
           | ["OTHER"; id] -> Some [LOther (z_of_string id)]
+          | ["DOWN"] -> Some []
           | _ -> failwith ("bad op: " ^ line)) in
+        let labels : clabel list option =
+          if w = ["DOWN"] then Some [CDown]
+          else (match labels0 with None -> None | Some ls -> Some (List.map (fun l -> CL l) ls)) in
         let res = (match labels with None -> None | Some ls -> run_labels s ls) in
         (match res with
          | None -> Printf.printf "rejected ev=- %s\n" (show_state s)
